@@ -13,11 +13,19 @@ case "$ID" in
 esac
 mkdir -p "$ROOT/.bin" "$ROOT/.work" "$ROOT/evidence"
 TMPBIN="$ROOT/.bin/$BIN.$$"
-if ! go build -tags verif $RACE -o "$TMPBIN" ./cmd/vcheck > "$ROOT/.work/build.$$.log" 2>&1; then
+# Registered checks always build against /repo's working tree. Background sweeps (vp run --with-repo)
+# may point VERIF_REPO at a frozen snapshot instead, so that edits to /repo do not leak into them.
+MODFILE=""
+if [ -n "$VERIF_REPO" ] && [ "$VERIF_REPO" != "/repo" ]; then
+  sed "s|=> /repo\$|=> $VERIF_REPO|" go.mod > "$ROOT/.work/go.alt.$$.mod"
+  cp go.sum "$ROOT/.work/go.alt.$$.sum"
+  MODFILE="-modfile=$ROOT/.work/go.alt.$$.mod"
+fi
+if ! go build $MODFILE -tags verif $RACE -o "$TMPBIN" ./cmd/vcheck > "$ROOT/.work/build.$$.log" 2>&1; then
   cat "$ROOT/.work/build.$$.log"; rm -f "$ROOT/.work/build.$$.log" "$TMPBIN"
   echo "BUILD-FAILED property=$ID (harness does not compile against /repo)"; exit 2
 fi
-rm -f "$ROOT/.work/build.$$.log"
+rm -f "$ROOT/.work/build.$$.log" "$ROOT/.work/go.alt.$$.mod" "$ROOT/.work/go.alt.$$.sum"
 mv -f "$TMPBIN" "$ROOT/.bin/$BIN"
 if [ -n "$RACE" ]; then
   RL="$ROOT/.work/race-$ID-$$"; rm -f "$RL".*
